@@ -517,6 +517,24 @@ func tamper(rng *rand.Rand, mi *mirror, keys [][]byte, hp proof, count int) []va
 		return variant{tag: tag, keys: cloneKeys(keys), p: hp.clone(), root: append([]byte{}, mi.root...), keyLen: keyLen}
 	}
 	nq := len(hp.queries)
+	// the empty claim: no keys, no queries, no sibling hashes - against the true root, a root with one bit flipped and
+	// an arbitrary root (Prove answers an empty key list with this proof; it commits to nothing and must not verify
+	// against roots the trie never had)
+	if rng.Intn(4) == 0 {
+		for k := 0; k < 3; k++ {
+			v := base("empty-claim")
+			v.keys, v.p = nil, proof{}
+			switch k {
+			case 1:
+				v.root[len(v.root)-1] ^= 1
+			case 2:
+				for i := range v.root {
+					v.root[i] = byte(rng.Intn(256))
+				}
+			}
+			out = append(out, v)
+		}
+	}
 	if nq == 0 {
 		return out
 	}
